@@ -25,6 +25,8 @@ mod selection_help;
 mod sorters;
 mod splitter;
 mod variables_extractor;
+#[cfg(jawk_verif)]
+pub mod verif_trace;
 
 use additional_help::display_additional_help;
 use clap::Parser;
@@ -258,15 +260,33 @@ impl<S: Read> Master<S> {
             None => {}
         }
         let mut process = self.cli.output_options.get_processor(self.stdout.clone())?;
+        #[cfg(jawk_verif)]
+        {
+            process = verif_trace::wrap("print", None, process);
+        }
         if let Some(group_by) = &self.cli.group_by {
             if let Some(group_by) = group_by {
                 let group_by = Grouper::from_str(group_by)?;
                 process = group_by.create_process(process);
+                #[cfg(jawk_verif)]
+                {
+                    process = verif_trace::wrap("group", None, process);
+                }
             } else {
                 process = Merger::create_process(process);
+                #[cfg(jawk_verif)]
+                {
+                    process = verif_trace::wrap("merge", None, process);
+                }
             }
         }
+        #[cfg(jawk_verif)]
+        let before = Some(verif_trace::address(process.as_ref()));
         process = Limiter::create_process(self.cli.skip, self.cli.take, process);
+        #[cfg(jawk_verif)]
+        {
+            process = verif_trace::wrap("limit", before, process);
+        }
         for (sort_index, sorter) in self.cli.sort_by.iter().enumerate() {
             let sorter = Sorter::from_str(sorter)?;
             // Only the most significant key (the sorter next to the limiter) may keep just the first rows.
@@ -276,23 +296,49 @@ impl<S: Read> Master<S> {
                 None
             };
             process = sorter.create_processor(process, max_size);
+            #[cfg(jawk_verif)]
+            {
+                process = verif_trace::wrap("sort", None, process);
+            }
         }
         if self.cli.unique {
             process = Uniquness::create_process(process);
+            #[cfg(jawk_verif)]
+            {
+                process = verif_trace::wrap("unique", None, process);
+            }
         }
         for selection in self.cli.choose.iter().rev() {
             let selection = Selection::from_str(selection)?;
             process = selection.create_process(process);
+            #[cfg(jawk_verif)]
+            {
+                process = verif_trace::wrap("select", None, process);
+            }
         }
         if let Some(filter) = &self.cli.filter {
             let filter = Filter::from_str(filter)?;
             process = filter.create_process(process);
+            #[cfg(jawk_verif)]
+            {
+                process = verif_trace::wrap("filter", None, process);
+            }
         }
         if let Some(splitter) = &self.cli.break_by {
             let splitter = Splitter::from_str(splitter)?;
             process = splitter.create_process(process);
+            #[cfg(jawk_verif)]
+            {
+                process = verif_trace::wrap("split", None, process);
+            }
         }
+        #[cfg(jawk_verif)]
+        let before = Some(verif_trace::address(process.as_ref()));
         process = self.cli.set.create_process(process)?;
+        #[cfg(jawk_verif)]
+        {
+            process = verif_trace::wrap("set", before, process);
+        }
         process.start(Titles::default())?;
 
         let mut index = 0;
